@@ -90,8 +90,21 @@ TParse == /\ IsEvent("Parse")
                 /\ Chk("Parse.grouping", (Rec.ok /\ p[1] = "ok") => Rec.shape = Shape(p[2]))
           /\ UNCHANGED <<vars, tid, unev>>
 \* {"ev":"Same","what":"freeze"|"export","before":str,"after":str}
+\* {"ev":"Same","what":..,"before":str,"after":str,"bk":["S"|"M"|"V"..],"bc":[n..],"ac":[n..]}
+\* bk / bc / ac: per template block its kind and the number of entries of the message's block list before / after
+\* (-1 = the message has no such list).  A Variable block with ZERO entries is a present, empty list and must stay one.
+\* The clause name says where the zero-entry block sits (diagnosis of a failure, not a check).
+EmptyCase(k, c) ==
+    LET zeros == {j \in DOMAIN c : c[j] = 0}
+        varbs == {j \in DOMAIN k : k[j] = "V"}
+    IN IF zeros = {} THEN ""
+       ELSE IF Len(c) = 1 THEN "[zero-entry-variable-block:only-block]"
+       ELSE IF zeros = varbs /\ Cardinality(varbs) >= 2 THEN "[zero-entry-variable-block:all-variable-blocks-empty]"
+       ELSE IF \E j \in zeros : \E m \in DOMAIN c : m > j /\ c[m] > 0 THEN "[zero-entry-variable-block:before-populated]"
+       ELSE "[zero-entry-variable-block:trailing]"
 TSame == /\ IsEvent("Same")
-         /\ Chk("Same." \o Rec.what, Rec.before = Rec.after)
+         /\ Chk("Same." \o Rec.what \o EmptyCase(Rec.bk, Rec.bc), Rec.before = Rec.after)
+         /\ Chk("Same." \o Rec.what \o ".block-lists" \o EmptyCase(Rec.bk, Rec.bc), Rec.ac = Rec.bc)
          /\ UNCHANGED <<vars, tid, unev>>
 
 TNext == TReset \/ TLog \/ TSetFilter \/ TPause \/ TClear \/ TMatch \/ TParse \/ TSame
